@@ -34,6 +34,36 @@ var conflictLeafNames = []string{"a", "b", "x", "f", "g"}
 var conflictDirModes = []int64{0o755, 0o755, 0o755, 0o755, 0o700, 0o750, 0o1777}
 var conflictFileModes = []int64{0o644, 0o644, 0o644, 0o755, 0o600, 0o4755}
 
+// the mode FIELD of a tar header may carry more than permission bits: the S_IF* file-type bits (c_ISREG …
+// c_ISSOCK of archive/tar, which tar.Header.FileInfo().Mode() decodes besides the typeflag) and the set-id /
+// sticky bits. Such headers are legal tar (GNU tar and libarchive write S_IFREG / S_IFDIR / S_IFLNK into the
+// field); what an entry IS is decided by its typeflag alone.
+var conflictModeTypeBits = []int64{0o100000, 0o40000, 0o120000, 0o20000, 0o60000, 0o10000, 0o140000, 0o40000, 0o100000, 0o120000}
+var conflictModeSetBits = []int64{0o4000, 0o2000, 0o1000, 0o6000}
+
+// modeFields rewrites the mode fields of a finished case: every entry keeps its typeflag, its permission bits
+// and its place; some get type bits (matching the typeflag or not) and / or set-id bits in the field.
+func (g *conflictGen) modeFields(c *conflictCase) {
+	r := g.r
+	pct := Pick(r, []int{25, 50, 100})
+	for pi := range c.Pkgs {
+		fs := c.Pkgs[pi].Files
+		for fi := range fs {
+			if !r.Chance(pct) {
+				continue
+			}
+			switch r.Intn(10) {
+			case 0, 1:
+				fs[fi].Mode |= Pick(r, conflictModeSetBits)
+			case 2:
+				fs[fi].Mode |= Pick(r, conflictModeSetBits) | Pick(r, conflictModeTypeBits)
+			default:
+				fs[fi].Mode |= Pick(r, conflictModeTypeBits)
+			}
+		}
+	}
+}
+
 func conflictAncestors(p string) []string {
 	var out []string
 	parts := strings.Split(p, "/")
@@ -336,6 +366,10 @@ func (conflictSuite) Gen(r *Rng, i int, tier string) any {
 	if tier == "thorough" || r.Chance(100) {
 		c.Backends = nil
 	}
+	// the mode-field dimension (drawn last: the shape of a case does not depend on it)
+	if r.Chance(30) {
+		g.modeFields(&c)
+	}
 	return c
 }
 
@@ -434,6 +468,9 @@ func conflictDesc(c conflictCase, backend string) string {
 		case "dir":
 			return fmt.Sprintf("%s/ %o %d:%d", f.Path, f.Mode, f.UID, f.GID)
 		case "symlink":
+			if f.Mode&^0o777 != 0 {
+				return fmt.Sprintf("%s->%s %o", f.Path, f.Link, f.Mode)
+			}
 			return fmt.Sprintf("%s->%s", f.Path, f.Link)
 		}
 		return fmt.Sprintf("%s=%q %o %d:%d", f.Path, f.Content, f.Mode, f.UID, f.GID)
@@ -455,12 +492,12 @@ func conflictDesc(c conflictCase, backend string) string {
 	return b.String()
 }
 
-func conflictTags(c conflictCase, backend string, o conflictObs) []string {
+func conflictTags(c conflictCase, backend string, o conflictObs) (tags []string) {
 	out := o.Outcome
 	if strings.HasPrefix(out, "conflict:") {
 		out = "conflict"
 	}
-	tags := []string{"be:" + backend, "out:" + out, "kind:" + c.Kind, backend + ":" + out, fmt.Sprintf("pkgs:%d", len(c.Pkgs))}
+	tags = []string{"be:" + backend, "out:" + out, "kind:" + c.Kind, backend + ":" + out, fmt.Sprintf("pkgs:%d", len(c.Pkgs))}
 	// shapes of overlap present in the input
 	type seen struct{ file, link, dir int }
 	m := map[string]*seen{}
@@ -514,6 +551,33 @@ unclean:
 			if strings.Contains(f.Path, "//") {
 				tags = append(tags, "name:unclean")
 				break unclean
+			}
+		}
+	}
+	// mode fields: type bits that agree / disagree with the typeflag, set-id bits; on an overlapping path?
+	mf := map[string]bool{}
+	defer func() {
+		for k := range mf {
+			tags = append(tags, k)
+		}
+	}()
+	for _, p := range c.Pkgs {
+		for _, f := range p.Files {
+			tb := f.Mode &^ 0o7777
+			if tb == 0 {
+				if f.Mode&0o7000 != 0 && f.Type != "dir" {
+					mf["modefield:setid"] = true
+				}
+				continue
+			}
+			agree := (f.Type == "file" && tb == 0o100000) || (f.Type == "dir" && tb == 0o40000) || (f.Type == "symlink" && tb == 0o120000)
+			t := "modefield:typebits-" + f.Type
+			if agree {
+				t += "-agree"
+			}
+			mf[t] = true
+			if s := m[f.Path]; s != nil && s.file+s.link > 1 && f.Type != "dir" && !agree {
+				mf["modefield:typebits-on-overlap"] = true
 			}
 		}
 	}
